@@ -101,7 +101,7 @@ def judge2_c07(line, impl):
         sent = "".join(w for w in t[6].split(",") if w != "-") or "-"
         return ("recread %s %s %s %s %s %s" % (t[1], t[2], t[3], t[4], wire, sent), "%s eof 1" % sent)
     return None
-HOOK_COMMITS = ["f0964c3", "f0ee85c", "a38392f", "da161e5", "5e35e30", "48a35e4", "bcc879f", "e7e32d2", "7bc6616", "1d0b9a9", "1418b64", "cbd428e", "2855402", "ccf80ce", "3a7a9aa", "9982186", "9f32c22", "4c97fac"]
+HOOK_COMMITS = ["f0964c3", "f0ee85c", "a38392f", "da161e5", "5e35e30", "48a35e4", "bcc879f", "e7e32d2", "7bc6616", "1d0b9a9", "1418b64", "cbd428e", "2855402", "ccf80ce", "3a7a9aa", "9982186", "9f32c22", "4c97fac", "0b6988e"]
 NOT_BUILT_REASON = "no check registered yet: the Lean model/theorems and the correspondence harness for this property have not been built in this session (work in progress, see DESIGN.md §12); the technique applies"
 
 PROPS["C05"] = {
@@ -383,8 +383,9 @@ PROPS["C14"] = {
 
 PROPS["C09"] = {
     "judge": judge_c09,
-    "modules": ["Gmsm.Props.C09", "Gmsm.Props.C09Ext", "Gmsm.Props.C09Names", "Gmsm.Props.C09Sig"],
+    "modules": ["Gmsm.Props.C09", "Gmsm.Props.C09Ext", "Gmsm.Props.C09Names", "Gmsm.Props.C09Sig", "Gmsm.Props.C09Template"],
     "theorems": [
+        "Props.C09Template.seqWith_const", "Props.C09Template.aki_template_unchanged", "Props.C09Template.aki_sequence_independent", "Props.C09Template.aki_call_independent", "Props.C09Template.aki_no_stale_key_id", "Props.C09Template.old_aki_stale_witness", "Props.C09Template.csr_template_unchanged", "Props.C09Template.csr_sequence_independent", "Props.C09Template.csr_call_independent", "Props.C09Template.appendFirst_others", "Props.C09Template.merge_other_attributes_untouched", "Props.C09Template.unspecified_not_specified", "Props.C09Template.old_csr_stale_witness",
         "Props.C09.emitted_algorithm_names_scheme", "Props.C09.creators_pass_pss_options", "Props.C09.csr_pss_signed_with_pss", "Props.C09.hash_only_creator_mislabels_pss", "Props.C09Sig.decode_eq_strict", "Props.C09Sig.decode_injective", "Props.C09Sig.extra_member_rejected", "Props.C09Sig.extra_member_never_verifies", "Props.C09Sig.lenient_accepts_extra_member", "Props.C09Sig.lenient_malleable", "Props.C09Sig.decode_encSig",
         "Props.C09Names.san_roundtrip",
         "Props.C09Names.sanIP_v4mapped",
@@ -469,7 +470,7 @@ PROPS["C17"] = {
 
 PROPS["C18"] = {
     "judge": judge_parsers,
-    "modules": ["Gmsm.Props.C18", "Gmsm.Props.C18Linear", "Gmsm.Props.C18Output", "Gmsm.Props.C02", "Gmsm.Props.C17", "Gmsm.Props.C16", "Gmsm.Props.C16Codec", "Gmsm.Props.C14Codec", "Gmsm.Props.C17Idem", "Gmsm.Props.C15Codec", "Gmsm.Props.C09Names", "Gmsm.Props.C15KeyAgreement", "Gmsm.Props.C17Fix"],
+    "modules": ["Gmsm.Props.C18", "Gmsm.Props.C18Linear", "Gmsm.Props.C18Output", "Gmsm.Props.C02", "Gmsm.Props.C17", "Gmsm.Props.C16", "Gmsm.Props.C16Codec", "Gmsm.Props.C14Codec", "Gmsm.Props.C17Idem", "Gmsm.Props.C15Codec", "Gmsm.Props.C09Names", "Gmsm.Props.C15KeyAgreement", "Gmsm.Props.C17Fix", "Gmsm.Props.C15Strict"],
     "theorems": [
         "Props.C17Fix.parseSignedData_fails_closed",
         "Props.C15KeyAgreement.clientKx_never_panics", "Props.C15KeyAgreement.ecdheGM_always_error",
@@ -519,8 +520,9 @@ PROPS["C18"] = {
 
 PROPS["C16"] = {
     "tie_ops": ["lru", "sstate", "sstatem"],
-    "modules": ["Gmsm.Props.C16", "Gmsm.Props.C16Codec"],
+    "modules": ["Gmsm.Props.C16", "Gmsm.Props.C16Codec", "Gmsm.Props.C16Enable", "Gmsm.Props.C16Cap"],
     "theorems": [
+        "Props.C16Enable.ensureKeys_nonempty", "Props.C16Enable.ensureKeys_keeps", "Props.C16Enable.ensureKeys_idem", "Props.C16Enable.encryptTicket_isSome", "Props.C16Enable.old_key_nonempty", "Props.C16Enable.issues_enabled", "Props.C16Enable.serve_never_panics", "Props.C16Enable.history_never_panics", "Props.C16Enable.handshake_alone_panics", "Props.C16Enable.put_find", "Props.C16Enable.disabled_serves_full", "Props.C16Enable.enabled_full_handshake_issues", "Props.C16Cap.ticketLen_le_cap", "Props.C16Cap.ticketLen_eq", "Props.C16Cap.clientStores_iff", "Props.C16Cap.marshalCerts_length", "Props.C16Cap.sealedLen_eq_marshal", "Props.C16Cap.writeU16s_length", "Props.C16Cap.protoEntries_length", "Props.C16Cap.opt_length", "Props.C16Cap.opt_le", "Props.C16Cap.chExtensions_length_le", "Props.C16Cap.marshalClientHello_length_le", "Props.C16Cap.capped_ticket_fits_clientHello", "Props.C16Cap.issued_ticket_fits_clientHello", "Props.C16Cap.issued_ticket_fits_newSessionTicket", "Props.C16Cap.marshalClientHello_length_ge", "Props.C16Cap.uncapped_ticket_never_fits", "Props.C16.history_resumption_sound_handshake",
         "Props.C16.gate_iff", "Props.C16.altered_ticket_never_resumes", "Props.C16.retired_key_never_resumes",
         "Props.C16.disabled_never_resumes", "Props.C16.unacceptable_certs_never_resume", "Props.C16.conn_resumed_iff", "Props.C16.conn_resumed",
         "Props.C16.resumed_is_original", "Props.C16.valid_ticket_resumes", "Props.C16.inv_conn", "Props.C16.inv_step",
@@ -538,8 +540,9 @@ PROPS["C16"] = {
 }
 
 PROPS["C06"] = {
-    "modules": ["Gmsm.Props.C06", "Gmsm.Props.C06Keys", "Gmsm.Props.C07Stream", "Gmsm.Props.C15Complete", "Gmsm.Props.C06Read", "Gmsm.Props.C08Inter"],
+    "modules": ["Gmsm.Props.C06", "Gmsm.Props.C06Keys", "Gmsm.Props.C07Stream", "Gmsm.Props.C15Complete", "Gmsm.Props.C06Read", "Gmsm.Props.C08Inter", "Gmsm.Props.C06KeyType"],
     "theorems": [
+        "Props.C06KeyType.signNilOpts_guarded", "Props.C06KeyType.gmCore_crash", "Props.C06KeyType.tlsCore_no_crash", "Props.C06KeyType.tlsPath_no_crash", "Props.C06KeyType.crash_needs_missing_guard", "Props.C06KeyType.never_crashes", "Props.C06KeyType.gmCore_original_crash", "Props.C06KeyType.original_crashes_iff", "Props.C06KeyType.gmCore_ok", "Props.C06KeyType.gmssl_needs_sm2_keys", "Props.C06KeyType.gmssl_sm2_completes", "Props.C06KeyType.pick_agrees", "Props.C06KeyType.getCertificate_tls", "Props.C06KeyType.tlsCore_version", "Props.C06KeyType.tls_version_independent", "Props.C06KeyType.sm2_client_cert_every_tls_version", "Props.C06KeyType.gmCore_local", "Props.C06KeyType.tlsCore_local", "Props.C06KeyType.repairs_are_local",
         "Props.C06.exported_suites_negotiable", "Props.C06.ecdhe_rsa_aes128_cbc_rows", "Props.C08Inter.client_verifies_via_intermediate", "Props.C08Inter.certList_leaves_first",
         "Props.C06Read.read_spec",
         "Props.C06Read.read_stream",
@@ -575,9 +578,10 @@ PROPS["C06"] = {
 }
 
 PROPS["C15"] = {
-    "judge": lambda l, a, b: (judge_parsers(l, a, b) if l.split(" ", 1)[0] in ("hsmsg", "hsmsgm") else judge_class_only(("hsseq", "hsout", "hsflight", "chmod", "shmod"))(l, a, b)),
-    "modules": ["Gmsm.Props.C15", "Gmsm.Props.C15Codec", "Gmsm.Props.C15Complete", "Gmsm.Props.C06Read", "Gmsm.Props.C15Limits", "Gmsm.Props.C15KeyAgreement"],
+    "judge": lambda l, a, b: (judge_parsers(l, a, b) if l.split(" ", 1)[0] in ("hsmsg", "hsmsgm") else judge_class_only(("hsseq", "hsout", "hsflight", "chmod", "shmod", "shmodv", "chext", "shticket"))(l, a, b)),
+    "modules": ["Gmsm.Props.C15", "Gmsm.Props.C15Codec", "Gmsm.Props.C15Complete", "Gmsm.Props.C06Read", "Gmsm.Props.C15Limits", "Gmsm.Props.C15KeyAgreement", "Gmsm.Props.C15Strict"],
     "theorems": [
+        "Props.C15Strict.clientVersionOkLim_iff", "Props.C15Strict.client_accepts_only_unclamped_version", "Props.C15Strict.client_rejects_version_above_offer", "Props.C15Strict.clientHelloCheckLim_default", "Props.C15Strict.client_rejects_version_above_tls12", "Props.C15Strict.tls12Suites_eq", "Props.C15Strict.tls12Only_iff", "Props.C15Strict.server_choice_passes_client_rule", "Props.C15Strict.client_never_tls12_suite_below_tls12", "Props.C15Strict.client_rejects_tls12_suite_below_tls12", "Props.C15Strict.sniLoop_sound", "Props.C15Strict.sniLoop_complete", "Props.C15Strict.chExtension_sni_iff", "Props.C15Strict.sniLoop_printable_tail", "Props.C15Strict.sni_hostname_length_perturbed", "Props.C15Strict.sni_list_length_perturbed", "Props.C15Strict.ridLoop_sound", "Props.C15Strict.ridLoop_complete", "Props.C15Strict.ocspRequestOk_iff", "Props.C15Strict.chExtension_ocsp_iff", "Props.C15Strict.ocsp_two_lengths", "Props.C15Strict.ocsp_length_perturbed", "Props.C15Strict.chExtLoop_rejects_perturbed_sni", "Props.C15Strict.chExtLoop_rejects_perturbed_ocsp", "Props.C15Strict.clientTicketCheck_iff", "Props.C15Strict.unsolicited_ticket_rejected", "Props.C15Strict.newSessionTicket_only_in_ticket_phase", "Props.C15Strict.ticket_phase_iff", "Props.C15Strict.never_enters_ticket_phase", "Props.C15Strict.ticket_phase_unreachable", "Props.C15Strict.unsolicited_newSessionTicket_is_error", "Props.C15Strict.finished_with_trailing_is_error", "Props.C15Strict.finished_with_trailing_never_accepted", "Props.C15Strict.finished_with_trailing_never_done", "Props.C15.clientSuiteVersionOk_iff",
         "Props.C15KeyAgreement.clientKx_never_panics", "Props.C15KeyAgreement.ecdheGM_always_error", "Props.C15KeyAgreement.processGM_refuses_all", "Props.C15KeyAgreement.processGMWith_sound", "Props.C15KeyAgreement.unchecked_share_panics", "Props.C15KeyAgreement.unchecked_share_x25519", "Props.C15KeyAgreement.rsa_goes_on_iff", "Props.C15KeyAgreement.rsa_wrong_key_is_error", "Props.C15KeyAgreement.clientKx_accepts_only_matching", "Props.C15KeyAgreement.generate_after_processTLS",
         "Props.C15Limits.mutualVersionLim_default", "Props.C15Limits.gap_refused", "Props.C15Limits.below_min_refused",
         "Props.C15Limits.agreed_version", "Props.C15Limits.dispatchLim_refuses",
@@ -690,8 +694,9 @@ PROPS["C08"] = {
 }
 
 PROPS["C20"] = {
-    "modules": ["Gmsm.Props.C20", "Gmsm.Props.C20Interlock", "Gmsm.Props.C20Locks", "Gmsm.Props.C17Mem"],
+    "modules": ["Gmsm.Props.C20", "Gmsm.Props.C20Interlock", "Gmsm.Props.C20Locks", "Gmsm.Props.C17Mem", "Gmsm.Props.C20Reneg", "Gmsm.Props.C09Template"],
     "theorems": [
+        "Props.C20Reneg.step_sums", "Props.C20Reneg.next_of_none", "Props.C20Reneg.next_of_some", "Props.C20Reneg.run_nil", "Props.C20Reneg.run_cons", "Props.C20Reneg.run_append", "Props.C20Reneg.Inv.step", "Props.C20Reneg.sumBy_init", "Props.C20Reneg.Inv.init", "Props.C20Reneg.Inv.next", "Props.C20Reneg.Inv.run", "Props.C20Reneg.inv_reachable", "Props.C20Reneg.localStep_kind", "Props.C20Reneg.next_kinds", "Props.C20Reneg.run_kinds", "Props.C20Reneg.run_length", "Props.C20Reneg.write_never_internal_error", "Props.C20Reneg.write_outcomes_ok", "Props.C20Reneg.sumBy_const_of_all", "Props.C20Reneg.start_kinds", "Props.C20Reneg.countP_writer_kinds", "Props.C20Reneg.writes_all_delivered", "Props.C20Reneg.no_appdata_mid_handshake", "Props.C20Reneg.write_never_runs_handshake", "Props.C20Reneg.complete_when_write_holds_hs", "Props.C20Reneg.step_isSome", "Props.C20Reneg.localStep_isSome_outHolder", "Props.C20Reneg.localStep_isSome_hsHolder", "Props.C20Reneg.localStep_isSome_free", "Props.C20Reneg.sumBy_add", "Props.C20Reneg.no_deadlock", "Props.C20Reneg.waitOut_add_notWait", "Props.C20Reneg.step_measure", "Props.C20Reneg.mu_next_le", "Props.C20Reneg.mu_run_le", "Props.C20Reneg.step_none_of_done", "Props.C20Reneg.run_of_done", "Props.C20Reneg.lt_length_of_isSome", "Props.C20Reneg.round_progress", "Props.C20Reneg.fair_termination", "Props.C20Reneg.localRem_init_le", "Props.C20Reneg.mu_init_le", "Props.C20Reneg.progress", "Props.C20Reneg.old_write_internal_error_witness", "Props.C09Template.seqWith_const", "Props.C09Template.aki_template_unchanged", "Props.C09Template.aki_sequence_independent", "Props.C09Template.aki_call_independent", "Props.C09Template.aki_no_stale_key_id", "Props.C09Template.old_aki_stale_witness", "Props.C09Template.csr_template_unchanged", "Props.C09Template.csr_sequence_independent", "Props.C09Template.csr_call_independent", "Props.C09Template.appendFirst_others", "Props.C09Template.merge_other_attributes_untouched", "Props.C09Template.unspecified_not_specified", "Props.C09Template.old_csr_stale_witness",
         "Props.C17Mem.padMem_frame",
         "Props.C20Locks.must_sound", "Props.C20Locks.may_sound", "Props.C20Locks.must_ok", "Props.C20Locks.may_ok",
         "Props.C20Locks.no_touch_violation", "Props.C20Locks.no_reacquisition", "Props.C20Locks.order_edges_expected",
